@@ -59,7 +59,12 @@ def judge(v, records, sc, tag):
                 if not g_["compiled"]:
                     names = [(x["name"], x["pkg"]) for x in r["case"]["ctrls"] if not x.get("outside")]
                     twins = any(a[0] == b[0] and a[1] != b[1] for a in names for b in names)
+                    import re as _re
+                    sig_types = [p_["type"] for m_ in r["case"]["methods"] for p_ in m_["sig"]]
+                    ret_types = [t_ for m_ in r["case"]["methods"] for t_ in m_["ret"]]
                     findings.append({"prop": "C09", "id": r["id"], "twins": twins,
+                                     "genericResult": any("[" in t_.lstrip("[]*") for t_ in ret_types),
+                                     "genericArgDeclared": any(_re.search(r"\w\[.*\bp\d\.", t_) for t_ in sig_types),
                                      "what": "route generation for %s succeeded but the file does not compile: %s" % (e, (g_.get("buildErr") or "")[:400])})
                 if g_["pkg"] and g_["gofmt"]:
                     findings.append({"prop": "C09", "id": r["id"], "class": "known:not-gofmt-clean", "what": "the routes file for %s is not gofmt-formatted" % e})
@@ -106,6 +111,8 @@ KNOWN_RULES = [
     # the same engine behaviour seen from C05: an OPTIONAL (pointer) non-string header sent with an empty value is not answered 422 on fiber
     ("fiber-empty-header-is-absent", {"C05"}, lambda f: f.get("engine") == "fiber" and f.get("kind") == "token" and "empty" in f.get("toks", []) and "not answered 422" in f.get("what", "")),
     # (only for projects that really have two controllers of one struct name in two packages: any other redeclaration is a violation)
+    ("generic-result-import-alias", {"C09"}, lambda f: f.get("genericResult") and "missing import path" in f.get("what", "")),
+    ("generic-argument-unqualified", {"C09"}, lambda f: f.get("genericArgDeclared") and "undefined: " in f.get("what", "")),
     ("same-name-controllers-alias-collision", {"C09"}, lambda f: f.get("twins") and "redeclared in this block" in f.get("what", "")),
 ]
 
@@ -142,7 +149,7 @@ def build_recording(tier):
     open(cases, "w").close()
     plan = [("Pipeline_c04.cfg", None, 60 if thorough else 6), ("Pipeline_c01sim.cfg", 300 if thorough else 12, None),
             ("Pipeline_sim.cfg", 500 if thorough else 12, None), ("Pipeline_c06sim.cfg", 400 if thorough else 12, None), ("Pipeline_c09sim.cfg", 300 if thorough else 18, None),
-            ("Pipeline_c06grp.cfg", None, 40 if thorough else 6)]
+            ("Pipeline_c06grp.cfg", None, 40 if thorough else 6), ("Pipeline_c14generics.cfg", None, 10 ** 6), ("Pipeline_c14types.cfg", None, 10 ** 6 if thorough else 8)]
     for cfgname, sim, take in plan:
         out = os.path.join(sc, cfgname + ".rcases")
         r = c.tlc("PipelineMC", cfgname, workers=1, out_file=out, simulate=("num=%d" % sim) if sim else None, depth=80 if sim else None, seed_=seed + 17, timeout=3000)
